@@ -33,6 +33,7 @@ from __future__ import absolute_import
 
 from mingus.core import notes
 from mingus.core import keys
+from mingus.core.mt_exceptions import NoteFormatError
 
 
 def interval(key, start_note, interval):
@@ -153,16 +154,27 @@ def seventh(note, key):
     return interval(key, note, 6)
 
 
+def _unison(note, shift):
+    """Spell the unison like the other intervals: never both sharps and
+    flats, never more than six accidentals."""
+    if not notes.is_valid_note(note):
+        raise NoteFormatError("Unknown note format '%s'" % note)
+    val = note.count("#") - note.count("b") + shift
+    if abs(val) > 6:
+        val = (val + 6) % 12 - 6
+    return note[0] + "#" * val + "b" * -val
+
+
 def minor_unison(note):
-    return notes.diminish(note)
+    return _unison(note, -1)
 
 
 def major_unison(note):
-    return note
+    return _unison(note, 0)
 
 
 def augmented_unison(note):
-    return notes.augment(note)
+    return _unison(note, 1)
 
 
 def minor_second(note):
